@@ -20,7 +20,7 @@ fn triple(fen: &str, history: &[String], depth: u8) -> Option<String> {
         history: history.to_vec(),
         limits: Limits::default(),
         max_depth: Some(depth),
-        cut: Cut::None,
+        cut: Cut::None, elapsed_ms: None,
     };
     let out = searchrun::run(&board, &case, &Opts { clear_cache: true, observe: false, neutral: false });
     Some(match out.panicked {
